@@ -40,6 +40,7 @@ CODES = {12: "loading failed for a saved model with a lower bound above the conf
          6: "round trip changed the raw LP in the solver",
          7: "a second round trip changed the model again",
          8: "second round trip failed to load",
+         10: "saving the loaded model again gives a different document",
          9: "optimum differs after the round trip"}
 
 
@@ -166,6 +167,18 @@ def run_impl(spec, rng_seed):
                 continue
             o1 = M.observe(m1)
             opt1 = optimum(m1)
+            # "saving the loaded model again gives the same document" (dict-based formats; python-side, code 10)
+            doc_diff = None
+            if d is not None and tag in DICT_BASED:
+                try:
+                    d1 = cio.model_to_dict(m1, sort=spec["sort"])
+                    if M.jv(d1) != M.jv(d):
+                        doc_diff = sorted(str(k) for k in set(d) | set(d1)
+                                          if (k in d) != (k in d1) or M.jv(d.get(k)) != M.jv(d1.get(k))) or ["<order>"]
+                except Exception as e:  # noqa
+                    doc_diff = ["<raised %s>" % type(e).__name__]
+            if doc_diff:
+                out.setdefault("doc_diffs", []).append((tag, doc_diff))
             try:
                 m2 = trip(fmt, m1, spec["sort"])
                 r2 = {"ok": M.observe(m2)}
@@ -257,6 +270,8 @@ def evaluate(specs, seeds):
                 codes[i].append((100 + tag, 9))
         if o.get("source_changed"):
             codes[i].append((1, 3))
+        for tag, diff in o.get("doc_diffs", []):
+            codes[i].append((100 + tag, 10))
     return codes, faults, outs
 
 
@@ -404,6 +419,9 @@ def run(args, rep, info, broken, rng):
             c2, _, o2 = evaluate([small], [seeds[i]])
             steps = [(s, c) for s, c in c2[0] if code_key(s, c) == key] or [(s, c) for s, c in codes[i] if code_key(s, c) == key]
             sig = {"code": key[0], "format_class": key[1]}
+            if key[0] == 10:
+                sig["compartment_none"] = any(m["compartment"] is None for m in small["mets"])
+                sig["differs_in"] = sorted({k for _, diff in o2[0].get("doc_diffs", []) for k in diff})
             fm = sorted({FORMATS[s % 100] for s, c in steps if s >= 100})
             errs = sorted({(FORMATS[t], r1.get("err"), r1.get("msg")) for t, r1, r2, _ in o2[0]["trips"] if "err" in r1})
             replay = {"case": small, "case_seed": seeds[i], "failed": CODES.get(key[0], str(key[0])),
